@@ -98,7 +98,16 @@ def run_steps(ctx, replay_ws=None):
     return results, [gits[i] for i in range(len(results))]
 
 
-def eval_cases(ctx, results, gits, name='Cases_C14'):
+def eval_cases(ctx, results, gits, name='Cases_C14', chunk=300):
+    g1, g2 = [], []
+    for i in range(0, len(results), chunk):
+        a, b = eval_cases_chunk(ctx, results[i:i + chunk], gits[i:i + chunk], '%s_%d' % (name, i // chunk))
+        g1 += [i + x for x in a]
+        g2 += [i + x for x in b]
+    return g1, g2
+
+
+def eval_cases_chunk(ctx, results, gits, name):
     v = ['From Regal Require Import Check.C14Check.', 'Open Scope N_scope.']
     v.append('Definition gcs : list git_case := ' + clist(git_term(r, g) for r, g in zip(results, gits)) + '.')
     v.append('Definition G1 := Eval vm_compute in failing repo_agrees 0 gcs.')
